@@ -84,3 +84,25 @@ Theorem C13_print_parse_refuted_rootless :
   exists p, parse (utf8_encode (print (mkISchema [[97]] [] [] []))) = OErr p MTopLevel.
 Proof. exact print_parse_rootless_refuted. Qed.
 Print Assumptions C13_print_parse_refuted_rootless.
+
+(* ---- print/parse round trip, for EVERY schema idl.Parse returns that has a root struct ----
+   (root-less schemas: C13_print_parse_refuted_rootless above).  Schema.PrettyPrint lists the
+   definitions sorted by name, Go keeps them in maps: canon s is s with its definitions in that order,
+   schema_equiv is equality of the package and of every definition under every name. *)
+From Stef Require Import RoundTripBase RoundTripThm RoundTripInv RoundTripCanon.
+
+Theorem C13_print_parse_roundtrip : forall input s w, parse input = OOk s w -> has_root s = true ->
+  parse (utf8_encode (print s)) = OOk (canon s) [].
+Proof. exact print_parse_roundtrip. Qed.
+Print Assumptions C13_print_parse_roundtrip.
+
+Theorem C13_print_parse_roundtrip_equiv : forall input s w, parse input = OOk s w -> has_root s = true ->
+  exists s', parse (utf8_encode (print s)) = OOk s' [] /\ schema_equiv s' s /\ print s' = print s.
+Proof. exact print_parse_roundtrip_equiv. Qed.
+Print Assumptions C13_print_parse_roundtrip_equiv.
+
+(* a second trip is exact *)
+Theorem C13_print_parse_roundtrip_exact : forall input s w, parse input = OOk s w -> has_root s = true ->
+  parse (utf8_encode (print (canon s))) = OOk (canon s) [].
+Proof. exact print_parse_roundtrip_exact. Qed.
+Print Assumptions C13_print_parse_roundtrip_exact.
